@@ -415,6 +415,8 @@ class Engine:
             return z3.And(z3.Not(v.t[0]), self.truth(v.t[1]))
         if k == "obj":
             cd = self.reg.classes.get(v.cls)
+            if cd is not None and not cd.truth and self.reg.class_inline(v.cls, "__bool__") is not None and not self.spec_mode:
+                return self.truth(self.inline_method(self.reg.class_inline(v.cls, "__bool__"), v, [], {}))
             if cd is not None and cd.truth:
                 self.clause_env_stack.append({"self": v})
                 self.spec_mode += 1
@@ -1007,7 +1009,22 @@ class Engine:
             if rev:
                 return {"kind": "range", "len": n, "elem": lambda i: mk_int(hi - 1 - i)}
             return {"kind": "range", "len": n, "elem": lambda i: mk_int(lo + i)}
+        if isinstance(node, ast.Call) and isinstance(node.func, ast.Name) and node.func.id == "zip":
+            cols = []
+            for a in node.args:
+                av = self.ev(a)
+                if av.k == "py" and isinstance(av.t, (tuple, list)):
+                    cols.append([self.pyval(x) for x in av.t])
+                elif av.k == "tuple":
+                    cols.append(list(av.t))
+                else:
+                    raise OutOfReach(f"{self.c.key}: zip over {av.k}")
+            n_ = min(len(c) for c in cols)
+            return {"kind": "concrete", "items": [mk_tuple([c[i] for c in cols]) for i in range(n_)]}
         v = self.ev(node)
+        if v.k == "py" and isinstance(v.t, (tuple, list)):
+            items = [self.pyval(x) for x in v.t]
+            return {"kind": "concrete", "items": items[::-1] if rev else items}
         if v.k == "tuple":
             items = list(v.t)
             return {"kind": "concrete", "items": items[::-1] if rev else items}
@@ -1077,6 +1094,16 @@ class Engine:
             return self.pyval(self.reg.consts[nm])
         if self.spec_mode and nm in self.st.ghost:
             return mk_int(self.st.ghost[nm])
+        # a module-level name of the file the (inlined) function was extracted from: read from the live module
+        rel = getattr(self.x, "relpath", "") or ""
+        if rel.endswith(".py") and not rel.startswith("<"):
+            import importlib
+            try:
+                mod = importlib.import_module(rel[:-3].replace("/", "."))
+                if hasattr(mod, nm):
+                    return self.pyval(getattr(mod, nm))
+            except ImportError:
+                pass
         raise OutOfReach(f"{self.c.key}: unresolved name {nm}")
 
     def pyval(self, x) -> V:
@@ -1153,6 +1180,8 @@ class Engine:
     def ev_List(self, n):
         # list literal of ints -> ilist; otherwise concrete tuple-like
         vals = [self.ev(e) for e in n.elts]
+        if not vals:
+            return mk_tuple([])       # a list built element by element at concrete positions: modelled as a concrete sequence
         if all(v.k == "int" for v in vals):
             a = z3.K(z3.IntSort(), z3.IntVal(0))
             for i, v in enumerate(vals):
@@ -1737,6 +1766,20 @@ class Engine:
         if isinstance(f, ast.Attribute) and isinstance(f.value, ast.Call) and isinstance(f.value.func, ast.Name) \
                 and f.value.func.id == "super" and "self" in self.st.env and self.st.env["self"].k == "py":
             return self.py_super_call(self.st.env["self"], f.attr, n)
+        if isinstance(f, ast.Attribute) and isinstance(f.value, ast.Call) and isinstance(f.value.func, ast.Name) \
+                and f.value.func.id == "super" and "self" in self.st.env and self.st.env["self"].k == "obj":
+            recv = self.st.env["self"]
+            cur = getattr(self.x, "qualname", "").split(".")[0]
+            for sup in self.reg._mro(cur)[1:]:
+                cd = self.reg.classes.get(sup)
+                spec = None
+                if cd is not None:
+                    spec = cd.ctor if f.attr == "__init__" else cd.inline.get(f.attr)
+                if spec is not None:
+                    args = [self.ev(a) for a in n.args]
+                    kw = {k.arg: self.ev(k.value) for k in n.keywords}
+                    return self.inline_method(spec, recv, args, kw)
+            raise OutOfReach(f"{self.c.key}: super().{f.attr} of {cur}")
         if isinstance(f, ast.Attribute):
             return self.method_call(n)
         raise OutOfReach(f"{self.c.key}: call to {d or ast.unparse(f)}")
@@ -1917,6 +1960,11 @@ class Engine:
                 cc = self.reg.method_contract(v.cls, "__len__")
                 if cc is not None:
                     return self.contract_call(cc, v, [], n)
+                im = self.reg.class_inline(v.cls, "__len__")
+                if im is not None:
+                    return self.inline_method(im, v, [], {})
+            if v.k == "py":
+                return self.pyval(len(v.t))
             raise OutOfReach(f"{self.c.key}: len of {v.k}")
         if nm == "bytearray" or nm == "bytes":
             if not n.args:
@@ -2028,7 +2076,7 @@ class Engine:
         x = extract(relpath, qual)
         self.inlined[(relpath, qual)] = x.sha256
         fdef = x.node
-        if self.inline_depth > 4:
+        if self.inline_depth > 12:
             raise OutOfReach("inline depth")
         for sub in ast.walk(fdef):
             if isinstance(sub, (ast.While,)):
@@ -2165,6 +2213,25 @@ class Engine:
             if meth == "startswith":
                 b = self.ev(n.args[0])
                 return mk_bool(z3.PrefixOf(b.t, recv.t))
+        if recv.k == "tuple" and meth in ("append", "insert", "extend"):
+            if meth == "append":
+                self.store_back(f.value, mk_tuple(list(recv.t) + [self.ev(n.args[0])]))
+                return NONE
+            if meth == "insert":
+                idx = z3.simplify(self.as_int(self.ev(n.args[0])))
+                if z3.is_int_value(idx):
+                    lst = list(recv.t)
+                    lst.insert(idx.as_long(), self.ev(n.args[1]))
+                    self.store_back(f.value, mk_tuple(lst))
+                    return NONE
+            if meth == "extend":
+                other = self.ev(n.args[0])
+                if other.k == "tuple":
+                    self.store_back(f.value, mk_tuple(list(recv.t) + list(other.t)))
+                    return NONE
+                if other.k == "ilist" and not recv.t:
+                    self.store_back(f.value, other)
+                    return NONE
         if recv.k == "ilist":
             a, nn, ml = recv.t
             if meth == "append":
